@@ -1,0 +1,16 @@
+//go:build verif
+
+package factory
+
+import (
+	"context"
+
+	"github.com/projecteru2/core/engine"
+	"github.com/projecteru2/core/types"
+)
+
+// VerifRegisterEngine registers an extra engine constructor for endpoints starting with
+// prefix. Verification builds only (build tag verif); call it before any engine is resolved.
+func VerifRegisterEngine(prefix string, f func(ctx context.Context, config types.Config, nodename, endpoint, ca, cert, key string) (engine.API, error)) {
+	engines[prefix] = f
+}
